@@ -363,13 +363,14 @@ def standard_build(chk: Check, gens, targets, theorems, prop_files, src=None):
     bodies regenerated by translate/t_funcs.py); built and audited on its own, so that a tie that no longer checks is
     reported as that tie and does not hide the state of the other theorems."""
     drv = None
+    srcs = [] if not src else (list(src) if isinstance(src, (list, tuple)) else [src])
     with BuildLock():
-        if src and src.get('funcs', True) and 'funcs' not in gens:
+        if any(x.get('funcs', True) for x in srcs) and 'funcs' not in gens:
             gens = list(gens) + ['funcs']
         rg = regen(gens)
         for g, err in rg.items():
             chk.oblige(f'translate:{g}', 'translation', err is None, err or 'regenerated from ' + str(REPO))
-        if src and src.get('funcs', True):
+        for src in [x for x in srcs if x.get('funcs', True)]:
             # function bodies are translated one by one: a body outside the translator's subset breaks the ties of the properties that
             # mention it (and only those)
             try:
@@ -382,7 +383,7 @@ def standard_build(chk: Check, gens, targets, theorems, prop_files, src=None):
                                    f'not translatable any more ({why}); source ties that mention {", ".join(hit)} cannot be checked')
             except Exception as e:  # noqa
                 chk.notes.append(f'could not read the translator report: {e}')
-        ok, out = lake_build(list(targets) + ([src['module']] if src else []) + ['bcdrv'])
+        ok, out = lake_build(list(targets) + [x['module'] for x in srcs] + ['bcdrv'])
         bad = failing_decls(out) if not ok else {}
         if not ok and not bad:
             # build failed without a located error: everything downstream is unknown
@@ -402,15 +403,17 @@ def standard_build(chk: Check, gens, targets, theorems, prop_files, src=None):
         bad_here = set()
         for f in prop_files:
             bad_here |= bad.get(f, set())
-        src_file = src['file'] if src else None
         # the regenerated function bodies are imported by the source-tie modules only
-        src_side = {src_file, 'BC/Gen/Funcs.lean'} | set(src.get('lemma_files', []) if src else [])
+        src_side = {'BC/Gen/Funcs.lean'}
+        for x in srcs:
+            src_side |= {x['file']} | set(x.get('lemma_files', []))
         other_bad = {f: v for f, v in bad.items() if f not in prop_files and f not in src_side}
         if other_bad:
             chk.oblige('lean-build-deps', 'build', False, json.dumps({k: sorted(map(str, v)) for k, v in other_bad.items()}))
         main_ok = ok or (bool(bad) and not other_bad and not bad_here)     # only the source-tie module failed
         aud = audit(chk.id, theorems) if main_ok else {}
-        if src:
+        for src in srcs:
+            src_file = src['file']
             sbad = bad.get(src_file, set())
             if 'BC/Gen/Funcs.lean' in bad:
                 chk.oblige('translate:funcs-typechecks', 'translation', False,
